@@ -73,7 +73,7 @@ def _gen_names(rng, n, layout):
         return [ds[k % len(ds)] + '/' + fn(i) for k, i in enumerate(order)]
     if layout == 'same_basename':          # region files collide unless the paths are flattened
         ds = ['left', 'right', 'mid']
-        return [ds[k % 3] + '/' + ('%d.jpg' % (i // 3)) for k, i in enumerate(order)]
+        return [ds[i % 3] + '/' + ('%d.jpg' % (i // 3)) for i in order]
     if layout == 'mixed_top_sub':
         return [(fn(i) if k % 2 == 0 else 'sub/' + fn(i)) for k, i in enumerate(order)]
     if layout == 'prefix_trap':            # common string prefix that is not a common directory
@@ -191,6 +191,8 @@ def _gen_case(rng, stream):
         layout = 'flat_collision'
     n = rng.choice([1, 2, 3, 3, 4, 5, 6])
     names = _gen_names(rng, n, layout)
+    while len(set(names)) != n:
+        names = _gen_names(rng, n, layout)
     ncam = rng.randint(1, min(3, n))
     cam_ids = rng.sample(['cam0', 'camB', '7', 'left', 'zz'], ncam)
     kinds = [rng.choice(CAMS_IN) for _ in range(ncam)]
@@ -248,6 +250,7 @@ def _gen_case(rng, stream):
            'root': rng.choice(['images', 'img root', 'openmvg_imgs'])}
     if stream == 'collision':
         cfg['flatten'] = True
+        matches = matches[:1]          # which of two merged pairs survives depends on set iteration order
     if cfg['exp_action'] == 'skip' and cfg['flatten']:
         cfg['imp_action'] = 'skip'     # nothing was materialised under the flattened names
     return {'stream': stream, 'layout': layout, 'cams': cams, 'images': images, 'nkp': nkp, 'points': points, 'obs': obs,
@@ -582,3 +585,183 @@ def oracle(case, obs):
     if m0 != m1:
         return f'matches differ: pairs {sorted(m0)[:2]} vs {sorted(m1)[:2]}' if set(m0) != set(m1) else 'match index pairs differ'
     return None
+
+
+# ------------------------------------------------------------------------------------------ Coq encoder
+def _cpath(name):
+    return kv.clist(kv.cstr(c) for c in name.split('/')) if name != '' else '[]'
+
+
+def _cvec(v):
+    return '(mkV %s %s %s)' % tuple(kv.cq(x) for x in v)
+
+
+def _cmat(m):
+    return '(mkM %s)' % ' '.join(kv.cq(x) for row in m for x in row)
+
+
+def _cquat(q):
+    return '(mkQ %s %s %s %s)' % tuple(kv.cq(x) for x in q)
+
+
+def _ccam(ctype, params):
+    return '(mkCam %s %s)' % (ctype, kv.clist(kv.cq(x) for x in params))
+
+
+_MODEL = {'pinhole': 'Mpinhole', 'pinhole_radial_k1': 'Mradial_k1', 'pinhole_radial_k3': 'Mradial_k3',
+          'pinhole_brown_t2': 'Mbrown_t2', 'fisheye': 'Mfisheye'}
+
+
+def _cprior(center, rotation):
+    if center is None:
+        return 'None'
+    return '(Some (%s, %s))' % (_cvec(center), _cmat(rotation))
+
+
+def _group(triples):
+    """[[p, x, f]] -> [(p, [(x, f)])] in order of first appearance"""
+    out, pos = [], {}
+    for p, x, f in triples:
+        if p not in pos:
+            pos[p] = len(out)
+            out.append((p, []))
+        out[pos[p]][1].append((x, f))
+    return out
+
+
+def _effective_root(case):
+    return 'records_data' if case['cfg']['exp_action'] == 'skip' else case['cfg']['root']
+
+
+def encode_dataset(case):
+    imgs = sorted(case['images'], key=lambda im: (im['ts'], im['cam']))      # order of records_camera.txt
+    nm = [im['name'] for im in case['images']]
+    cams = kv.clist(kv.cpair(kv.cstr(cid), _ccam(ct, ps)) for cid, ct, ps in case['cams'])
+    images = kv.clist('(mkImg %s %s %s)' % (kv.cz(im['ts']), kv.cstr(im['cam']), _cpath(im['name'])) for im in imgs)
+    poses = kv.clist('((%s, %s), mkP %s %s)' % (kv.cz(im['ts']), kv.cstr(im['cam']), _cquat(im['q']), _cvec(im['t']))
+                     for im in imgs if im['q'] is not None)
+    points = 'None' if case['points'] is None else '(Some %s)' % kv.clist(_cvec(p[:3]) for p in case['points'])
+    obs = kv.clist('(%s, %s)' % (kv.cz(p), kv.clist('(%s, %s)' % (_cpath(nm[i]), kv.cz(f)) for i, f in l))
+                   for p, l in _group(case['obs'])) if case['points'] is not None else '[]'
+    kp = kv.clist('(%s, %s)' % (_cpath(n), kv.cz(i)) for i, n in enumerate(nm))
+    ms = kv.clist('((%s, %s), %s)' % (_cpath(nm[a]), _cpath(nm[b]), kv.clist('(%s, %s)' % (kv.cz(x), kv.cz(y)) for x, y in pr))
+                  for a, b, pr in case['matches'])
+    return '(mkData %s %s %s %s %s %s %s)' % (cams, images, poses, points, obs, kp, ms)
+
+
+def _encode_sfm(s):
+    intr = kv.clist('(%s, mkIntr %s %s %s %s %s %s %s %s)' % (
+        kv.cz(e['key']), _MODEL[e['model']], 'Value0' if e['layout'] == 'value0' else 'Flat', kv.cz(e['width']),
+        kv.cz(e['height']), kv.cq(e['focal']), kv.cq(e['pp'][0]), kv.cq(e['pp'][1]), kv.clist(kv.cq(x) for x in e['disto']))
+        for e in s['intrinsics'])
+    views = kv.clist('(mkView %s %s %s %s %s %s %s %s %s)' % (
+        kv.cz(v['key']), kv.cz(v['id_view']), kv.cz(v['id_intrinsic']), kv.cz(v['id_pose']), _cpath(v['local_path']),
+        kv.cstr(v['filename']), kv.cz(v['width']), kv.cz(v['height']), _cprior(v['center'], v['rotation'])) for v in s['views'])
+    ext = kv.clist('(%s, (%s, %s))' % (kv.cz(e['key']), _cvec(e['center']), _cmat(e['rotation'])) for e in s['extrinsics'])
+    if s['structure'] is None:
+        st = 'None'
+    else:
+        st = '(Some %s)' % kv.clist('(mkLm %s %s %s)' % (
+            kv.cz(l['key']), _cvec(l['X']), kv.clist('(%s, %s)' % (kv.cz(v), kv.cz(f)) for v, f in l['obs'])) for l in s['structure'])
+    regions = kv.clist('(%s, %s)' % (kv.cstr(k), kv.cz(t)) for k, t in sorted(s['regions'].items()))
+    ms = kv.clist('((%s, %s), %s)' % (kv.cz(i), kv.cz(j), kv.clist('(%s, %s)' % (kv.cz(x), kv.cz(y)) for x, y in pr))
+                  for i, j, pr in s['matches'])
+    return '(mkSfm %s %s %s %s %s %s %s)' % (kv.cstr(s['root_base']), intr, views, ext, st, regions, ms)
+
+
+def _encode_out(o):
+    def cam_key(cid):
+        if str(int(cid)) != cid:
+            raise ValueError('sensor id is not the decimal form of an intrinsic key: %r' % cid)
+        return kv.cz(int(cid))
+    cams = kv.clist('(%s, %s)' % (cam_key(cid), _ccam(c['type'], c['params'])) for cid, c in sorted(o['cams'].items()))
+    images = kv.clist('((%s, %s), %s)' % (kv.cz(im['ts']), cam_key(im['cam']), _cpath(im['name'])) for im in o['images'])
+    poses = kv.clist('((%s, %s), mkP %s %s)' % (kv.cz(p['ts']), cam_key(p['cam']), _cquat(p['q']), _cvec(p['t']))
+                     for p in o['poses'])
+    points = 'None' if o['points'] is None else '(Some %s)' % kv.clist(_cvec(p) for p in o['points'])
+    obs = kv.clist('(%s, %s)' % (kv.cz(p), kv.clist('(%s, %s)' % (_cpath(n), kv.cz(f)) for n, f in l))
+                   for p, l in _group(o['obs']))
+    kp = kv.clist('(%s, %s)' % (_cpath(n), kv.cz(t)) for n, t in sorted(o['kp'].items()))
+    ms = kv.clist('((%s, %s), %s)' % (_cpath(a), _cpath(b), kv.clist('(%s, %s)' % (kv.cz(x), kv.cz(y)) for x, y in pr))
+                  for a, b, pr in o['matches'])
+    return '(mkK %s %s %s %s %s %s %s)' % (cams, images, poses, points, obs, kp, ms)
+
+
+def encode(case, obs):
+    cfg = '(mkCfg %s %s %s)' % (kv.cbool(case['cfg']['flatten']), kv.cbool(case['cfg']['v2']), kv.cstr(_effective_root(case)))
+    return '(mkCase %s %s %s %s %s)' % (
+        cfg, encode_dataset(case), kv.cbool(model_in_range(case)),
+        kv.copt(_encode_sfm(obs['sfm']) if obs['sfm'] is not None else None),
+        kv.copt(_encode_out(obs['out']) if obs['out'] is not None else None))
+
+
+def model_in_range(case):
+    """in_range plus the well-formedness clauses the Coq predicate also states (true of every generated case)"""
+    names = [im['name'] for im in case['images']]
+    seen = set()
+    for a, b, _ in case['matches']:
+        if a == b or frozenset((a, b)) in seen:
+            return False
+        seen.add(frozenset((a, b)))
+    return in_range(case) and len(set(names)) == len(names)
+
+
+# ------------------------------------------------------------------------------------------ evidence helpers
+def nontrivial(case, obs):
+    return len(case['images']) >= 2 and bool(case['points'] or case['matches']) and obs['outcome'] == 'ok'
+
+
+def classify(case, obs):
+    return '%s/%s/%s%s/%s' % (case['stream'], case['layout'], 'flat' if case['cfg']['flatten'] else 'tree',
+                              '-v2' if case['cfg']['v2'] else '-v1', obs['outcome'].split(':')[0])
+
+
+def describe(case, obs):
+    return {'images': [im['name'] for im in case['images']], 'cameras': [c[1] for c in case['cams']], 'cfg': case['cfg'],
+            'points': None if case['points'] is None else len(case['points']), 'observations': len(case['obs']),
+            'matches': len(case['matches']), 'outcome': obs['outcome'],
+            'reimported_images': [im['name'] for im in (obs['out'] or {}).get('images', [])]}
+
+
+def shrink(case):
+    n = len(case['images'])
+    for k in range(n):
+        if n <= 1:
+            break
+        keep = [i for i in range(n) if i != k]
+        ren = {old: new for new, old in enumerate(keep)}
+        c = dict(case)
+        c['images'] = [case['images'][i] for i in keep]
+        c['nkp'] = [case['nkp'][i] for i in keep]
+        c['obs'] = [[p, ren[i], f] for p, i, f in case['obs'] if i in ren]
+        c['matches'] = [[ren[a], ren[b], pr] for a, b, pr in case['matches'] if a in ren and b in ren]
+        usedc = {im['cam'] for im in c['images']}
+        c['cams'] = [cm for cm in case['cams'] if cm[0] in usedc]
+        yield c
+    if case['matches']:
+        c = dict(case)
+        c['matches'] = []
+        yield c
+    if case['points'] and len(case['points']) > 1:
+        c = dict(case)
+        c['points'] = case['points'][:1]
+        c['obs'] = [o for o in case['obs'] if o[0] == 0]
+        yield c
+    if len(case['obs']) > 1:
+        c = dict(case)
+        c['obs'] = case['obs'][:1]
+        yield c
+
+
+TECHNIQUE = ('Coq proof over Q (field identities of MQV/PQV for t = -R(-R^T t), list/association-list inductions for ids, '
+             'renaming, structure and matches) about a Gallina model of export and import; differential correspondence of the '
+             'exported files and of the re-imported dataset by vm_compute')
+LEVEL_TEXT = ('Theorems in coq/Props/C14.v hold for every dataset and configuration satisfying the boolean in_range: the '
+              're-imported image list is the original one renamed (shared directory replaced by the image-root name, optionally '
+              'flattened), every image keeps its pose as a rotation and translation, its intrinsics as a projection function, '
+              'points, observations, keypoints and the matching relation are preserved. The model is tied to the code by running '
+              'the real export_openmvg and import_openmvg and comparing both the exported files and the re-imported dataset with '
+              'the model inside Coq.')
+LEVEL_NOTE = ('partial: JSON, numpy text I/O, the kapture csv layer and the quaternion library are trusted and only exercised '
+              '(from_rotation_matrix is a Section variable whose contract is sampled on every pose); IEEE rounding is not '
+              'modelled (1e-9 tolerance); rigs, point colours, keypoint file contents and image file transfer are outside the model.')
